@@ -1,6 +1,7 @@
 import PersimVerif.Model.Transformers
 import PersimVerif.Lemmas.ImagerForget
 import PersimVerif.Lemmas.ImagerTransformers
+import PersimVerif.Lemmas.ImageModels
 
 /-!
 # C18 — transformers: fit+transform = fit_transform, and refits forget the past
@@ -13,6 +14,23 @@ implementation of the pixel content (that is C04/C11's and C08's business).
 
 The models are small, so most proofs are short; the content is in the quantifiers — every state,
 every pair of histories, every history of calls — and in the tie of the model to the code.
+
+`imagerTransform` here is the third model of `PersistenceImager.transform` (container shape only); it agrees with
+C04/C11's `Image.transform` and C12's `Imager.ensureIterable` by `ImageModels.transform_agree` /
+`ImageModels.ensureIterable_agree` (`Lemmas/ImageModels.lean`).
+
+**What holds by construction of the model.**  `imager_transform_pure`, `imager_transform_pure_history`,
+`landscaper_transform_pure`, `landscaper_fit_then_transform(_history)` and the first component of
+`imager_fit_then_transform` are true because the model was *written* that way: a `transform` call
+returns the state it was given (`icall`/`lcall`), and `lfitTransform` is defined as `lfit` followed by
+`ltransform` (sklearn's `TransformerMixin`).  Their proofs are `rfl`/a list induction and carry no
+information about the code by themselves; what ties them to the code is the harness, which on every
+run compares the object's whole `__dict__` before and after every `transform`/`repr`/`get_params` call
+of every generated history, and every output of `fit_transform` with `transform` after `fit`
+(streams `*_transform_pure_in_histories`, `*_laws`).  The theorems with content of their own are
+`imager_fit_forgets(_histories)` (through `Lemmas/ImagerForget.lean`), `imager_map_in_order`,
+`landscaper_fit_forgets`, `landscaper_clone_is_unfitted`, `landscaper_fit_rejects` and the refuted
+old models.
 -/
 namespace PersimVerif.C18
 open PersimVerif.Imager PersimVerif.Transformers
@@ -203,31 +221,49 @@ variable {L β : Type} [LinearOrder L]
 
 /-- **landscaper_fit_forgets.**  For every constructor call and every history of calls (user
     assignments of `start`/`stop` to a value or to `None`, of `num_steps`, `flatten`, `hom_deg`, fits,
-    transforms, fit_transforms, including calls that raised), a `fit` on data `X` whose diagram of the
-    current degree `d = X[hom_deg]` is non-empty succeeds and leaves
+    transforms, fit_transforms, `sklearn.base.clone` (the history goes on with the clone),
+    `set_params(**get_params())`, including calls that raised), a `fit` on data `X` whose diagram of
+    the current degree `d = X[hom_deg]` has at least one point with finite coordinates (`fin` is
+    `np.isfinite`, any predicate) succeeds and leaves
 
-      `start` = the user's last assignment if it was a value, else the minimum birth of `d`,
-      `stop`  = the user's last assignment if it was a value, else the maximum death of `d`,
+      `start` = the user's last assignment if it was a value, else the minimum birth `m`,
+      `stop`  = the user's last assignment if it was a value, else the maximum death `M`
 
-    where `m`/`M` are attained bounds of `d`.  Nothing learned by an earlier fit survives. -/
-theorem landscaper_fit_forgets (approx : List (Dgm L) → Option L → Option L → Int → Int → β) (flat : β → β)
+    of the points of `d` with finite coordinates (`m`, `M` are attained there, so they are finite).
+    `userStart/userStop` are read off the call list alone: `clone` and `set_params(**get_params())` do
+    not appear in them, i.e. they neither fix a learned value nor lose a user-fixed one.  Nothing
+    learned by an earlier fit survives. -/
+theorem landscaper_fit_forgets (fin : L → Bool)
+    (approx : List (Dgm L) → Option L → Option L → Int → Int → β) (flat : β → β)
     (homDeg : Int) (start stop : Option L) (numSteps : Int) (flatten : Bool) (cs : List (LCall L))
     (X : List (Dgm L)) (d : Dgm L)
-    (hX : pyIndex X (lrun approx flat (lctor homDeg start stop numSteps flatten) cs).homDeg = some d)
-    (hd : d ≠ []) :
-    ∃ m M s', (∃ p ∈ d, p.1 = m) ∧ (∀ p ∈ d, m ≤ p.1) ∧ (∃ p ∈ d, p.2 = M) ∧ (∀ p ∈ d, p.2 ≤ M) ∧
-      lfit (lrun approx flat (lctor homDeg start stop numSteps flatten) cs) X = .ok s' ∧
+    (hX : pyIndex X (lrun fin approx flat (lctor homDeg start stop numSteps flatten) cs).homDeg = some d)
+    (hd : ∃ p ∈ d, fin p.1 = true ∧ fin p.2 = true) :
+    ∃ m M s', (∃ p ∈ d, fin p.1 = true ∧ fin p.2 = true ∧ p.1 = m) ∧
+      (∀ p ∈ d, fin p.1 = true → fin p.2 = true → m ≤ p.1) ∧
+      (∃ p ∈ d, fin p.1 = true ∧ fin p.2 = true ∧ p.2 = M) ∧
+      (∀ p ∈ d, fin p.1 = true → fin p.2 = true → p.2 ≤ M) ∧
+      lfit fin (lrun fin approx flat (lctor homDeg start stop numSteps flatten) cs) X = .ok s' ∧
       s'.start = some (match userStart start cs with | some v => v | none => m) ∧
       s'.stop = some (match userStop stop cs with | some v => v | none => M) := by
-  obtain ⟨m, hm, hm1, hm2⟩ := minBirth_spec hd
-  obtain ⟨M, hM, hM1, hM2⟩ := maxDeath_spec hd
-  have hinv := lrun_linv approx flat cs start stop _ (lctor_linv homDeg start stop numSteps flatten)
-  generalize lrun approx flat (lctor homDeg start stop numSteps flatten) cs = s at hX hinv
-  have hfit : lfit s X = .ok { s with start := if s.startFixed then s.start else some m,
-                                      stop := if s.stopFixed then s.stop else some M } := by
+  have hmem : ∀ p, p ∈ finitePts fin d ↔ p ∈ d ∧ fin p.1 = true ∧ fin p.2 = true := by
+    intro p; simp [finitePts, List.mem_filter]
+  have hne : finitePts fin d ≠ [] := by
+    obtain ⟨p, hp, h1, h2⟩ := hd
+    exact List.ne_nil_of_mem ((hmem p).2 ⟨hp, h1, h2⟩)
+  obtain ⟨m, hm, ⟨pm, hpm, hpm'⟩, hm2⟩ := minBirth_spec hne
+  obtain ⟨M, hM, ⟨pM, hpM, hpM'⟩, hM2⟩ := maxDeath_spec hne
+  have hinv := lrun_linv fin approx flat cs start stop _ (lctor_linv homDeg start stop numSteps flatten)
+  generalize lrun fin approx flat (lctor homDeg start stop numSteps flatten) cs = s at hX hinv
+  have hfit : lfit fin s X = .ok { s with start := if s.startFixed then s.start else some m,
+                                          stop := if s.stopFixed then s.stop else some M } := by
     simp only [lfit, hX, hm, hM, learn]
     split_ifs <;> rfl
-  refine ⟨m, M, _, hm1, hm2, hM1, hM2, hfit, ?_, ?_⟩
+  refine ⟨m, M, _, ?_, ?_, ?_, ?_, hfit, ?_, ?_⟩
+  · obtain ⟨a, b, c⟩ := (hmem pm).1 hpm; exact ⟨pm, a, b, c, hpm'⟩
+  · intro p hp h1 h2; exact hm2 p ((hmem p).2 ⟨hp, h1, h2⟩)
+  · obtain ⟨a, b, c⟩ := (hmem pM).1 hpM; exact ⟨pM, a, b, c, hpM'⟩
+  · intro p hp h1 h2; exact hM2 p ((hmem p).2 ⟨hp, h1, h2⟩)
   · cases hu : userStart start cs with
     | none =>
       have : s.startFixed = false := by rw [hinv.sf, hu]; rfl
@@ -246,53 +282,78 @@ theorem landscaper_fit_forgets (approx : List (Dgm L) → Option L → Option L 
       simp [h1, h2]
 
 /-- non-vacuity: start fixed by the constructor, un-fixed by `start = None`, stop fixed later; an
-    earlier fit on other data in between -/
+    earlier fit on other data, a `clone` and a `set_params(**get_params())` in between; the data of the
+    last fit contains an "infinite" bar (coordinates ≥ 1000 play the role of ±∞ here) -/
 example :
-    let cs : List (LCall Int) := [.fit [[(0, 4)]], .setStart none, .setStop (some 12), .fit [[(5, 6)]], .transform [[(1, 2)]]]
-    let s := lrun (β := Unit) (fun _ _ _ _ _ => ()) id (lctor 0 (some 1) none 10 false) cs
-    pyIndex [[(2, 10), (3, 7)]] s.homDeg = some [(2, 10), (3, 7)] ∧
+    let fin : Int → Bool := fun x => decide (x < 1000)
+    let cs : List (LCall Int) := [.fit [[(0, 4)]], .setStart none, .clone, .setStop (some 12), .fit [[(5, 6)]],
+                                  .setParamsFromGet, .transform [[(1, 2)]], .clone]
+    let s := lrun (β := Unit) fin (fun _ _ _ _ _ => ()) id (lctor 0 (some 1) none 10 false) cs
+    pyIndex [[(2, 10), (3, 7), (1, 1000)]] s.homDeg = some [(2, 10), (3, 7), (1, 1000)] ∧
     userStart (some 1) cs = none ∧ userStop none cs = some 12 ∧
-    (lfit s [[(2, 10), (3, 7)]]).toOption.map (fun s' => (s'.start, s'.stop)) = some (some 2, some 12) := by
+    (lfit fin s [[(2, 10), (3, 7), (1, 1000)]]).toOption.map (fun s' => (s'.start, s'.stop)) = some (some 2, some 12) := by
   decide
 
+/-- **landscaper_clone_is_unfitted.**  After any history, `sklearn.base.clone(obj)` is the object the
+    constructor builds from the *user's* `start`/`stop` (their last assignments, `None` if the user
+    fixed nothing) and the current `hom_deg`, `num_steps`, `flatten`: nothing that a `fit` learned is
+    carried into the clone, and nothing the user fixed is lost.  The same values are what
+    `get_params` reports. -/
+theorem landscaper_clone_is_unfitted (fin : L → Bool)
+    (approx : List (Dgm L) → Option L → Option L → Int → Int → β) (flat : β → β)
+    (homDeg : Int) (start stop : Option L) (numSteps : Int) (flatten : Bool) (cs : List (LCall L)) :
+    let s := lrun fin approx flat (lctor homDeg start stop numSteps flatten) cs
+    getStart s = userStart start cs ∧ getStop s = userStop stop cs ∧
+    lclone s = lctor s.homDeg (userStart start cs) (userStop stop cs) s.numSteps s.flatten := by
+  have hinv := lrun_linv fin approx flat cs start stop _ (lctor_linv homDeg start stop numSteps flatten)
+  exact ⟨getStart_eq hinv, getStop_eq hinv, lclone_eq hinv⟩
+
 /-- the rejections of `fit` (the model rejects what the code rejects): a degree outside `X` is an
-    `IndexError`; an empty diagram is a `ValueError` unless both ends are user-fixed — and then the
-    object is returned unchanged -/
-theorem landscaper_fit_rejects (s : LState L) (X : List (Dgm L)) :
-    (pyIndex X s.homDeg = none → lfit s X = .error .indexError) ∧
-    (pyIndex X s.homDeg = some [] → (s.startFixed = false ∨ s.stopFixed = false) →
-        lfit s X = .error .valueError) ∧
-    (pyIndex X s.homDeg = some [] → s.startFixed = true → s.stopFixed = true → lfit s X = .ok s) := by
-  refine ⟨fun h => by simp only [lfit, h], fun h hf => ?_, fun h h1 h2 => ?_⟩
-  · simp only [lfit, h, learn, minBirth, maxDeath]
+    `IndexError`; a diagram without a point of finite coordinates (empty, or all bars infinite) is a
+    `ValueError` unless both ends are user-fixed — and then the object is returned unchanged -/
+theorem landscaper_fit_rejects (fin : L → Bool) (s : LState L) (X : List (Dgm L)) :
+    (pyIndex X s.homDeg = none → lfit fin s X = .error .indexError) ∧
+    (∀ d, pyIndex X s.homDeg = some d → finitePts fin d = [] → (s.startFixed = false ∨ s.stopFixed = false) →
+        lfit fin s X = .error .valueError) ∧
+    (∀ d, pyIndex X s.homDeg = some d → finitePts fin d = [] → s.startFixed = true → s.stopFixed = true →
+        lfit fin s X = .ok s) := by
+  refine ⟨fun h => by simp only [lfit, h], fun d h he hf => ?_, fun d h he h1 h2 => ?_⟩
+  · simp only [lfit, h, he, learn, minBirth, maxDeath]
     rcases hf with hf | hf
     · simp [hf]
     · cases hs : s.startFixed <;> simp [hf]
-  · simp only [lfit, h, learn, h1, h2, if_true]
+  · simp only [lfit, h, he, learn, h1, h2, if_true]
     cases s; simp_all
 
+/-- non-vacuity: an all-infinite diagram is rejected like an empty one -/
+example : lfit (fun x : Int => decide (x < 1000)) (lctor 0 none (some 5) 10 false) [[(0, 1000), (1000, 1000)]]
+    = .error .valueError := by decide
+
 /-- **landscaper_fit_then_transform.**  sklearn's `fit_transform(X)` = `fit(X).transform(X)`: same
-    state, same output, same rejection. -/
-theorem landscaper_fit_then_transform (approx : List (Dgm L) → Option L → Option L → Int → Int → β)
+    state, same output, same rejection (true by construction of `lfitTransform`; the harness compares
+    the real `fit_transform` with `fit` + `transform` on every generated history). -/
+theorem landscaper_fit_then_transform (fin : L → Bool)
+    (approx : List (Dgm L) → Option L → Option L → Int → Int → β)
     (flat : β → β) (s : LState L) (X : List (Dgm L)) :
-    lfitTransform approx flat s X =
-      match lfit s X with
+    lfitTransform fin approx flat s X =
+      match lfit fin s X with
       | .error e => .error e
       | .ok s' => .ok (s', ltransform approx flat s' X) := rfl
 
 /-- as a statement about histories: `fit_transform(X)` can be replaced by `fit(X); transform(X)`
     anywhere in any history without changing the state reached -/
-theorem landscaper_fit_then_transform_history (approx : List (Dgm L) → Option L → Option L → Int → Int → β)
+theorem landscaper_fit_then_transform_history (fin : L → Bool)
+    (approx : List (Dgm L) → Option L → Option L → Int → Int → β)
     (flat : β → β) (s : LState L) (X : List (Dgm L)) (pre post : List (LCall L)) :
-    lrun approx flat s (pre ++ .fitTransform X :: post) =
-      lrun approx flat s (pre ++ .fit X :: .transform X :: post) := by
+    lrun fin approx flat s (pre ++ .fitTransform X :: post) =
+      lrun fin approx flat s (pre ++ .fit X :: .transform X :: post) := by
   induction pre generalizing s with
   | nil =>
     simp only [List.nil_append, lrun, lcall, lfitTransform]
-    cases lfit s X <;> rfl
+    cases lfit fin s X <;> rfl
   | cons c pre ih =>
     simp only [List.cons_append, lrun]
-    cases lcall approx flat s c with
+    cases lcall fin approx flat s c with
     | error e => exact ih s
     | ok r => exact ih r.1
 
@@ -303,11 +364,12 @@ def notTransformL : LCall L → Bool
 
 /-- **landscaper_transform_pure.**  `transform` returns the state it was given, twice the same output,
     and deleting every `transform` from any history does not change the state it reaches. -/
-theorem landscaper_transform_pure (approx : List (Dgm L) → Option L → Option L → Int → Int → β)
+theorem landscaper_transform_pure (fin : L → Bool)
+    (approx : List (Dgm L) → Option L → Option L → Int → Int → β)
     (flat : β → β) (s : LState L) (X : List (Dgm L)) (cs : List (LCall L)) :
-    lcall approx flat s (.transform X) = .ok (s, some (ltransform approx flat s X)) ∧
-    lrun approx flat s [.transform X, .transform X] = s ∧
-    lrun approx flat s (cs.filter notTransformL) = lrun approx flat s cs := by
+    lcall fin approx flat s (.transform X) = .ok (s, some (ltransform approx flat s X)) ∧
+    lrun fin approx flat s [.transform X, .transform X] = s ∧
+    lrun fin approx flat s (cs.filter notTransformL) = lrun fin approx flat s cs := by
   refine ⟨rfl, rfl, ?_⟩
   induction cs generalizing s with
   | nil => rfl
@@ -321,16 +383,18 @@ theorem landscaper_transform_pure (approx : List (Dgm L) → Option L → Option
     | setNumSteps n => rw [List.filter_cons_of_pos (by rfl)]; simp only [lrun, lcall]; exact ih _
     | setFlatten b => rw [List.filter_cons_of_pos (by rfl)]; simp only [lrun, lcall]; exact ih _
     | setHomDeg k => rw [List.filter_cons_of_pos (by rfl)]; simp only [lrun, lcall]; exact ih _
+    | clone => rw [List.filter_cons_of_pos (by rfl)]; simp only [lrun, lcall]; exact ih _
+    | setParamsFromGet => rw [List.filter_cons_of_pos (by rfl)]; simp only [lrun, lcall]; exact ih _
     | fit X' =>
       rw [List.filter_cons_of_pos (by rfl)]
       simp only [lrun]
-      cases lcall approx flat s (.fit X') with
+      cases lcall fin approx flat s (.fit X') with
       | error e => exact ih s
       | ok r => exact ih r.1
     | fitTransform X' =>
       rw [List.filter_cons_of_pos (by rfl)]
       simp only [lrun]
-      cases lcall approx flat s (.fitTransform X') with
+      cases lcall fin approx flat s (.fitTransform X') with
       | error e => exact ih s
       | ok r => exact ih r.1
 
@@ -339,9 +403,36 @@ theorem landscaper_transform_pure (approx : List (Dgm L) → Option L → Option
 theorem landscaper_old_counterexample :
     (let s := lrunOld (lctor (α := Int) 0 none none 500 false) [[[(0, 4)]], [[(2, 10)]]]
      (s.start, s.stop) = (some 0, some 4)) ∧
-    (let s := lrun (β := Unit) (fun _ _ _ _ _ => ()) id (lctor (α := Int) 0 none none 500 false)
+    (let s := lrun (β := Unit) (fun _ => true) (fun _ _ _ _ _ => ()) id (lctor (α := Int) 0 none none 500 false)
                 [.fit [[(0, 4)]], .fit [[(2, 10)]]]
      (s.start, s.stop) = (some 2, some 10)) := by
+  decide
+
+/-- `get_params` before 4d8db3a (sklearn's default, which reports the attribute whether the user or a
+    fit assigned it): `clone(PL().fit([[0,4]])).fit([[2,10]])` and
+    `t.fit([[0,4]]); t.set_params(**t.get_params()); t.fit([[2,10]])` both leave `(0, 4)` — the clone /
+    the round trip turned the learned values into user-fixed ones, against `landscaper_fit_forgets`
+    (`userStart = userStop = none` for both histories).  The repaired `get_params` gives `(2, 10)`. -/
+theorem landscaper_clone_old_counterexample :
+    let fin : Int → Bool := fun _ => true
+    let s0 := lctor (α := Int) 0 none none 500 false
+    let h1 : List (LCall Int) := [.fit [[(0, 4)]], .clone, .fit [[(2, 10)]]]
+    let h2 : List (LCall Int) := [.fit [[(0, 4)]], .setParamsFromGet, .fit [[(2, 10)]]]
+    (userStart none h1, userStop none h1, userStart none h2, userStop none h2) = (none, none, none, none) ∧
+    ((lrunOldParams fin s0 h1).start, (lrunOldParams fin s0 h1).stop) = (some 0, some 4) ∧
+    ((lrunOldParams fin s0 h2).start, (lrunOldParams fin s0 h2).stop) = (some 0, some 4) ∧
+    (let s := lrun (β := Unit) fin (fun _ _ _ _ _ => ()) id s0 h1; (s.start, s.stop) = (some 2, some 10)) ∧
+    (let s := lrun (β := Unit) fin (fun _ _ _ _ _ => ()) id s0 h2; (s.start, s.stop) = (some 2, some 10)) := by
+  decide
+
+/-- `fit` before b209c93 had no finiteness filter (`fin := fun _ => true` in the model): with an
+    "infinite" bar (1000 plays ∞) it learns `stop = ∞`, which `PersLandscapeApprox` cannot grid; the
+    repaired `fit` learns the largest finite death -/
+theorem landscaper_nofilter_old_counterexample :
+    let X : List (Dgm Int) := [[(0, 3), (1, 4), (0, 1000)]]
+    let s0 := lctor (α := Int) 0 none none 500 false
+    (lfit (fun _ => true) s0 X).toOption.map (fun s => (s.start, s.stop)) = some (some 0, some 1000) ∧
+    (lfit (fun x => decide (x < 1000)) s0 X).toOption.map (fun s => (s.start, s.stop)) = some (some 0, some 4) := by
   decide
 
 end PersimVerif.C18
